@@ -148,6 +148,60 @@ def _worker_chunk(args):
         faulthandler.cancel_dump_traceback_later()
 
 
+def _isolated_child(conn, args):
+    try:
+        out = _worker_chunk(args)
+        conn.send(out)
+    except BaseException as e:  # noqa
+        try:
+            conn.send([{'i': args[4][0], 'viol': [], 'harness': ['isolated child: %r' % (e,)], 'stats': {}, 'keys': [], 'digest': '', 'sample': None, 'near': []}])
+        except Exception:
+            pass
+    finally:
+        conn.close()
+
+
+def run_isolated(modname, prop, tier, seed, idxs, opts, timeout=300):
+    """Run each index in its own forked process (used after a worker died, to
+    find the run that kills the interpreter).  A child that dies from a signal
+    becomes a CRASH violation if the check module knows how to describe it."""
+    import importlib
+    import multiprocessing as mp
+    ctx = mp.get_context('fork')
+    mod = importlib.import_module(modname)
+    results, harness = [], []
+    for i in idxs:
+        parent, child = ctx.Pipe(duplex=False)
+        pr = ctx.Process(target=_isolated_child, args=(child, (modname, prop, tier, seed, [i], opts, timeout)))
+        pr.start()
+        child.close()
+        got = None
+        try:
+            if parent.poll(timeout + 30):
+                got = parent.recv()
+        except (EOFError, OSError):
+            got = None
+        pr.join(5)
+        if pr.is_alive():
+            pr.kill()
+            pr.join()
+        if got is not None:
+            results.extend(got)
+            continue
+        code = pr.exitcode
+        res = new_result(i)
+        if hasattr(mod, 'crash_violation') and code is not None and code < 0:
+            try:
+                res['viol'].append(mod.crash_violation(run_rng(prop, tier, seed, i), tier, opts, -code))
+                res['stats'] = {'runs': 1, 'probe.interpreter_crash': 1}
+            except Exception:
+                res['harness'].append('run %d killed its process (exit %s); no description available' % (i, code))
+        else:
+            res['harness'].append('run %d killed its process (exit %s)' % (i, code))
+        results.append(res)
+    return results, harness
+
+
 def run_batch(modname, prop, tier, seed, n_runs, workers, opts=None, chunk=None, time_cap=None, chunk_timeout=900, start=0):
     """Run indices start..start+n_runs-1 on a fork pool; results returned in
     index order so the worker count cannot change any output."""
@@ -171,6 +225,8 @@ def run_batch(modname, prop, tier, seed, n_runs, workers, opts=None, chunk=None,
     pending = set()
     it = iter(chunks)
     stop = False
+    fut_chunk = {}
+    broken = []
     with ProcessPoolExecutor(max_workers=workers, mp_context=ctx) as ex:
         try:
             while True:
@@ -183,7 +239,9 @@ def run_batch(modname, prop, tier, seed, n_runs, workers, opts=None, chunk=None,
                     except StopIteration:
                         stop = True
                         break
-                    pending.add(ex.submit(_worker_chunk, (modname, prop, tier, seed, c, opts, chunk_timeout)))
+                    fu = ex.submit(_worker_chunk, (modname, prop, tier, seed, c, opts, chunk_timeout))
+                    fut_chunk[fu] = c
+                    pending.add(fu)
                 if not pending:
                     break
                 done, pending = wait(pending, timeout=chunk_timeout + 60, return_when=FIRST_COMPLETED)
@@ -196,10 +254,19 @@ def run_batch(modname, prop, tier, seed, n_runs, workers, opts=None, chunk=None,
                     try:
                         results.extend(f.result())
                     except Exception as e:
-                        harness.append('worker died: %r' % (e,))
+                        broken.append(fut_chunk[f])
                         stop = True
         except Exception as e:  # BrokenProcessPool etc.
             harness.append('pool failure: %r' % (e,))
+    if broken:
+        # a worker died (segfault, faulthandler timeout): every in-flight chunk is lost with it.  Re-run those
+        # indices one per process to find the culprit; the rest of the batch is abandoned (evidence says how many ran).
+        idxs = sorted(i for c in broken for i in c)
+        r2, h2 = run_isolated(modname, prop, tier, seed, idxs, opts, timeout=min(chunk_timeout, 300))
+        results.extend(r2)
+        harness.extend(h2)
+        if not any(r['viol'] or r['harness'] for r in r2):
+            harness.append('a worker died but no single run reproduces it in isolation (indices %s..%s)' % (idxs[0], idxs[-1]))
     results.sort(key=lambda r: r['i'])
     return results, harness
 
